@@ -47,6 +47,7 @@ struct World {
 	bool handler_installed = false;
 	std::vector<std::string> log;               // messages of the current op (bounded)
 	long log_total = 0; long log_null = 0; long log_fragments = 0; std::string log_fragment_first;
+	std::string log_expect_tail; bool log_expect_tail_set = false;   // what the message that quoted the text whole said behind it (the same for every length of the text, unless its end was cut off)
 	std::string log_expect; long log_expect_full = 0, log_expect_prefix = 0;   // a text the next diagnostics are known to quote (a path): seen whole / seen at least its first 40 characters
 	std::map<std::string, int> log_marks;       // marker substring -> count (current op)
 	// ---- alloc
